@@ -77,17 +77,29 @@ def held_tensors(layer):
         t = getattr(layer, prop, None)
         if isinstance(t, torch.Tensor):
             ident[(t.untyped_storage().data_ptr(), t.storage_offset(), tuple(t.shape))] = key
-    for k, v in vars(layer).items():
-        if k in ('module', 'tdc'):
-            continue
+    def leaves(v, depth=0):
+        # tensors held directly or inside plain containers (a cache kept as (key, tensor) or {key: tensor} is still held)
         if isinstance(v, (torch._C.Future, torch.futures.Future)):
             v = v.wait()
         if isinstance(v, torch.Tensor):
+            yield v
+        elif isinstance(v, (tuple, list, set, frozenset)) and depth < 4:
+            for x in v:
+                yield from leaves(x, depth + 1)
+        elif isinstance(v, dict) and depth < 4:
+            for x in v.values():
+                yield from leaves(x, depth + 1)
+
+    for k, v0 in vars(layer).items():
+        if k in ('module', 'tdc'):
+            continue
+        for v in leaves(v0):
             key = (v.untyped_storage().data_ptr(), v.storage_offset(), tuple(v.shape))
             if key in seen:
                 continue
             seen[key] = k
-            out[ident.get(key, k)] = v.nelement() * v.element_size()
+            name = ident.get(key, k)
+            out[name] = out.get(name, 0) + v.nelement() * v.element_size()
     return out
 
 
